@@ -2,8 +2,14 @@
    gs are the token groups of the text (single tokens and LICENSE WITH LICENSE triples) as built by
    Licensing.tokenize before the strict checks; roles_ok gs says that every triple has a
    non-exception on the left and an exception on the right and that no single license is an
-   exception. *)
-Require Import Model.Base Model.Expr Model.LicTok Model.Licensing Proofs.WithGroup Proofs.Strict.
+   exception.
+   Last clause of the property: two tables with the same keys and aliases (same_names), whatever
+   their exception flags, give non-strictly the same outcome up to the flags carried by the symbols
+   (eexpr erases them): the same error, or trees equal after erasure; they accept the same strings.
+   Proved by showing that the matcher, the overlap filter, the piece walk, the unknown-run merger,
+   WITH grouping, the non-strict replacement and the boolean parser commute with a map on the
+   values they carry (Proofs/Flags.v). *)
+Require Import Model.Base Model.Expr Model.LicTok Model.Licensing Proofs.WithGroup Proofs.Strict Proofs.Flags.
 
 Theorem C12_strict_iff : forall O T simple s gs e, s <> [] -> token_groups O T simple s = Ok gs ->
   (parse_tokens O T true simple s = Ok e <->
@@ -28,3 +34,18 @@ Theorem C12_replace_strict_iff : forall O gs r,
   replace_with O true gs = Ok r <-> replace_with O false gs = Ok r /\ roles_ok gs = true.
 Proof. exact strict_iff. Qed.
 Print Assumptions C12_replace_strict_iff.
+
+Theorem C12_nonstrict_parse_ignores_flags : forall O T T' validate simple s, same_names T T' ->
+  eout (option_map eexpr) (parse O T validate false simple s) = eout (option_map eexpr) (parse O T' validate false simple s).
+Proof. exact parse_flag_free. Qed.
+Print Assumptions C12_nonstrict_parse_ignores_flags.
+
+Theorem C12_nonstrict_accepts_same_strings : forall O T T' validate simple s, same_names T T' ->
+  ((exists r, parse O T validate false simple s = Ok r) <-> (exists r, parse O T' validate false simple s = Ok r)).
+Proof. exact parse_accepts_same. Qed.
+Print Assumptions C12_nonstrict_accepts_same_strings.
+
+Theorem C12_nonstrict_tokens_ignore_flags : forall O T T' simple s, same_names T T' ->
+  eout (map eptok) (lic_tokenize O T false simple s) = eout (map eptok) (lic_tokenize O T' false simple s).
+Proof. exact tokenize_flag_free. Qed.
+Print Assumptions C12_nonstrict_tokens_ignore_flags.
